@@ -79,6 +79,27 @@ def judge(beh, text, as_bytes=False):
             return
 
 
+# A text the lexical grammar rejects AT a character stays rejected whatever follows (the lexer is deterministic, left to right):
+# every continuation of such a text must be rejected too.  The pool holds continuations that would "repair" a sloppy implementation
+# (closing quotes after white space, digits of other scripts, line ends).
+CONTINUATIONS = ('"', ' "', ' x"', 'a"', '1"', '0 "', '\n"', '\t1"', '\u0661"', '"""', ' """', ' x', '}', '\n', ' 1 }')
+
+
+def judge_continuations(beh, text):
+    if not beh["err"] or beh["how"] != "step" or beh["c"]:
+        return
+    for suf in CONTINUATIONS:
+        status, exc, toks = lexgamma.lex_real(text + suf)
+        if status == "ok":
+            yield ("C01", "lex/impl-accepts-continuation/mode=%s/last=%s/then=%s" % (beh["mode"], beh["inp"][-1], _special([lexgamma.classify(suf[0])]) + lexgamma.classify(suf[0])),
+                   "lexer accepts a continuation of a text the lexical grammar rejects at a character", text + suf)
+            return
+        why = lexgamma.check_syntax_error(exc, text + suf)
+        if why:
+            yield ("C01", "lex/error-clause/%s/mode=%s/continuation" % (why, beh["mode"]), "syntax error violates a C01 clause: " + why, text + suf)
+            return
+
+
 def _worker(args):
     behs, reps, seed = args
     rng = random.Random(seed)
@@ -92,6 +113,9 @@ def _worker(args):
             for prop, key, what in judge(beh, text):
                 out.setdefault((prop, key), [what, {"classes": beh["inp"], "text": text, "spec": beh}])
             if r == 0:
+                for prop, key, what, full in judge_continuations(beh, text):
+                    n += 1
+                    out.setdefault((prop, key), [what, {"classes": beh["inp"], "text": full, "spec": beh}])
                 n += 1
                 for prop, key, what in judge(beh, text, as_bytes=True):
                     if (prop, key.replace("lex/bytes/", "lex/")) in out:
